@@ -533,20 +533,24 @@ class ApplySym:
         self.guards = []
 
     # -- entry ---------------------------------------------------------------
-    def run(self, op, given):
-        """`given`: set of operand names passed as non-None ('u' always)."""
+    def run(self, op, given, binding=None):
+        """`given`: set of operand names passed as non-None ('u' always).
+        `binding`: parameter name -> operand letter (default: the parameters `u`, `v`, `w`)."""
         self.op = op
         self.env = {}
         self.guards = []
         pnames = [p[0] for p in self.func.params]
+        if binding is None:
+            binding = {x: x for x in ('u', 'v', 'w')}
         self.env['self'] = VMgr()
         for p in pnames:
-            if p == 'self':
+            if p in binding:
+                o = binding[p]
+                self.env[p] = VHandle(('arg', o), param=o) if o in given else VNone()
+            elif p == 'self':
                 continue
-            if p == 'op':
+            elif p == 'op':
                 self.env[p] = VOp()
-            elif p in ('u', 'v', 'w'):
-                self.env[p] = VHandle(('arg', p), param=p) if p in given else VNone()
             else:
                 self.env[p] = VOther(p)
         self.has = set(pnames)
@@ -736,6 +740,17 @@ class ApplySym:
         fn = _dotted(c.func)
         if fn is None or c.keywords:
             raise Unknown(_src(c))
+        if (fn.endswith('.apply') and c.args and isinstance(c.args[0], ast.Constant)
+                and isinstance(c.args[0].value, str) and getattr(self, 'apply_rows', None) is not None):
+            # `self.zdd.apply('<=>', self, other)`: inline the row of the same back end's `apply`
+            base = self.expr(c.func.value)
+            ops = [self.expr(a) for a in c.args[1:]]
+            row = self.apply_rows.get(c.args[0].value)
+            if isinstance(base, VMgr) and row is not None and row[0] == 'ret' \
+                    and all(isinstance(o, VHandle) for o in ops) and len(ops) <= 3:
+                sub = dict(zip('uvw', [o.e for o in ops]))
+                return VHandle(_subst(row[1], sub), line=c.lineno)
+            raise Unknown(_src(c))
         args = [self.expr(a) for a in c.args]
         # wrap(self, r) / Function(r)
         if fn == 'wrap' and len(args) == 2 and isinstance(args[0], VMgr):
@@ -779,6 +794,16 @@ class ApplySym:
         if isinstance(a, VNull):
             raise _Raise('ValueError', c.lineno)
         raise Unknown(_src(c))
+
+
+def _subst(e, sub):
+    if e[0] == 'arg':
+        if e[1] not in sub:
+            raise Unknown('operand ' + e[1] + ' not supplied')
+        return sub[e[1]]
+    if e[0] == 'call':
+        return ('call', e[1], [_subst(x, sub) for x in e[2]])
+    return e
 
 
 def module_str_consts(lls):
@@ -913,6 +938,71 @@ def apply_table(repo, mod):
     res['via_abc'] = via_abc
     res['guards'] = guards
     return res
+
+
+# quantifier functions as the reader understands them: (universal, index of the quantified
+# node, index of the variable cube) among the node arguments.  lean/DD/CWrap.lean has its own
+# table (`cQuantSig`); `cTables_consistent` proves that the two agree on the current source.
+QUANT_SIG = {
+    'Cudd_bddUnivAbstract': (True, 0, 1), 'Cudd_bddExistAbstract': (False, 0, 1),
+    'sylvan_forall': (True, 0, 1), 'sylvan_exists': (False, 0, 1),
+    'bdd_forall': (True, 0, 1), 'bdd_exist': (False, 0, 1),
+    '_forall_root': (True, 0, 1), '_exist_root': (False, 0, 1),
+}
+
+
+def roles_of(e):
+    """(universal, operand supplying the variables, quantified operand, mode) or None."""
+    if e[0] == 'call' and e[1] in QUANT_SIG and len(e[2]) == 2:
+        fa, bi, ci = QUANT_SIG[e[1]]
+        body, cube = e[2][bi], e[2][ci]
+        if body[0] != 'arg':
+            return None
+        if cube[0] == 'arg':
+            return (fa, cube[1], body[1], 'cubeArg')
+        if (cube[0] == 'call' and cube[1] == '_dict_to_zdd' and len(cube[2]) == 1
+                and cube[2][0][0] == 'call' and cube[2][0][1] == 'support'
+                and cube[2][0][2] and cube[2][0][2][0][0] == 'arg'):
+            return (fa, cube[2][0][2][0][1], body[1], 'supportOf')
+    return None
+
+
+# operator methods of the handles and of the managers: (qualified name, parameter binding,
+# the spelling of `apply` they must agree with)
+OPERATOR_METHODS = (
+    ('Function.__invert__', {'self': 'u'}, 'not'),
+    ('Function.__and__', {'self': 'u', 'other': 'v'}, 'and'),
+    ('Function.__or__', {'self': 'u', 'other': 'v'}, 'or'),
+    ('Function.__xor__', {'self': 'u', 'other': 'v'}, 'xor'),
+    ('Function.implies', {'self': 'u', 'other': 'v'}, 'implies'),
+    ('Function.equiv', {'self': 'u', 'other': 'v'}, 'equiv'),
+    ('{cls}.ite', {'g': 'u', 'u': 'v', 'v': 'w'}, 'ite'),
+)
+
+
+def operator_table(repo, mod, apply_tab):
+    """Rows `(method, spelling, outcome)` for the operator methods that exist in the module."""
+    _abc2, utils = _abc_vocab(repo)
+    rows = []
+    arows = {op: out for op, out in apply_tab['rows']}
+    for qual, binding, spelling in OPERATOR_METHODS:
+        qual = qual.format(cls=mod['cls'])
+        f = next((f for f in mod['funcs'] if f.qual == qual), None)
+        if f is None:
+            continue
+        stmts, err = body_ast(f)
+        if stmts is None:
+            rows.append((qual, spelling, ('unknown', err, f.lineno)))
+            continue
+        pn = [p[0] for p in f.params]
+        if not set(binding) <= set(pn):
+            rows.append((qual, spelling, ('unknown', 'unexpected parameters ' + ', '.join(pn), f.lineno)))
+            continue
+        sym = ApplySym(mod['tag'], mod['prefix'], f, stmts, mod['ext'] | mod['local'], {},
+                       utils.assert_operator_arity)
+        sym.apply_rows = arows
+        rows.append((qual, spelling, sym.run(None, set(binding.values()), binding)))
+    return rows
 
 
 # ---------------------------------------------------------------------------
@@ -1571,7 +1661,7 @@ def ref_traces(repo, mod):
             uncovered.append((f.qual, f.lineno, 'recursion limit'))
             continue
         role = role_of(f)
-        if not any(ev[0] in RELEVANT for p in ps for ev in p.events):
+        if role == 'plain' and not any(ev[0] in RELEVANT for p in ps for ev in p.events):
             n_plain += 1
             continue
         seen = set()
@@ -1620,10 +1710,11 @@ def lean_method(tag, m):
 def extract_all(repo):
     """{'apply': [table per back end], 'traces': {tag: [method]}, 'uncovered': {tag: [...]},
     'irrelevant': {tag: n}} -- deterministic (source order)."""
-    data = dict(apply=[], traces={}, uncovered={}, irrelevant={}, nfuncs={}, local={})
+    data = dict(apply=[], operators={}, traces={}, uncovered={}, irrelevant={}, nfuncs={}, local={})
     for tag, _f, _c, _p, _d in BACKENDS:
         mod = load_backend(repo, tag)
         data['apply'].append(apply_table(repo, mod))
+        data['operators'][tag] = operator_table(repo, mod, data['apply'][-1])
         ms, unc, n = ref_traces(repo, mod)
         data['traces'][tag] = ms
         data['uncovered'][tag] = unc
@@ -1643,6 +1734,27 @@ def lean_ctables(data):
     for t in data['apply']:
         L.append(f'def cApply_{t["tag"]} : CApplyTable :=\n' + lean_apply_table(t))
     L.append('def cApply : List CApplyTable := [' + ', '.join('cApply_' + t['tag'] for t in data['apply']) + ']')
+    L.append('/-- operator methods of the handles (`~u`, `u & v`, `u | v`, `u.implies(v)`, `u.equiv(v)`) and '
+             '`ite` of the managers:\n(back end, method, the spelling of `apply` it must agree with, what it computes) -/')
+    ops = []
+    for tag, rows in data['operators'].items():
+        for qual, spelling, out in rows:
+            ops.append(f'(.{tag}, {_ls(qual)}, ⟨{_ls(spelling)}, {lean_outcome(out)}, {out[2]}⟩)')
+    L.append('def cOperators : List (Backend × String × CRow) := [\n  ' + ',\n  '.join(ops) + ']')
+    L.append('/-- the reader\'s own (Python-side) view of the accepted vocabulary and of the quantifier roles '
+             '`(universal?, operand giving the variables, quantified operand)`, for cross-checking -/')
+    acc = []
+    for t in data['apply']:
+        acc.append(f'(.{t["tag"]}, [' + ', '.join(_ls(op) for op, out in t['rows'] if out[0] != 'raises') + '])')
+    L.append('def cAcceptedPy : List (Backend × List String) := [' + ', '.join(acc) + ']')
+    rl = []
+    for t in data['apply']:
+        for op, out in t['rows']:
+            r = roles_of(out[1]) if out[0] == 'ret' else None
+            if r is not None:
+                rl.append(f'(.{t["tag"]}, {_ls(op)}, {"true" if r[0] else "false"}, .{r[1]}, .{r[2]})')
+    L.append('def cQuantRolesPy : List (Backend × String × Bool × COperand × COperand) := [\n  '
+             + ',\n  '.join(rl) + ']')
     L.append('/-- reference events along every explicit path of every function that touches C nodes -/')
     for tag, ms in data['traces'].items():
         for k, m in enumerate(ms):
